@@ -133,7 +133,7 @@ def u_ann(c):
         c.prove("other-string/unchanged", r is node)
 
 
-@unit("should_instrument", ["C11", "C01", "C16"], [TR + ":PteraTransformer.should_instrument", S + ":check_element", TG + ":match_tag"])
+@unit("should_instrument", ["C11", "C01", "C16", "C04", "C02"], [TR + ":PteraTransformer.should_instrument", S + ":check_element", TG + ":match_tag"])
 def u_should_instrument(c):
     """should_instrument(name, ann) <=> some element of the capture set matches (name, evaluated annotation): exactly the
     bindings an active selector can select are instrumented (so it is a superset of the delivery filter of interact)."""
@@ -159,7 +159,7 @@ def u_should_instrument(c):
     # the decision is per BINDING (name, annotation of that binding), not per name: a second binding of the same
     # variable with another annotation is decided on its own
     st, r2 = run(it, it.getattr(tr, "should_instrument"), ["x", n2])
-    c.prove("second-binding-of-the-same-name-decided-on-its-own-annotation", st == "ok" and it.truth(r2) == want2, only=["C11", "C16", "C01"])
+    c.prove("second-binding-of-the-same-name-decided-on-its-own-annotation", st == "ok" and it.truth(r2) == want2, only=["C11", "C16", "C01", "C04", "C02"])
 
 
 @unit("C11.lemma", ["C11"], [])
